@@ -17,14 +17,22 @@ mod writers;
 /// The sources of the macro crate, included by path so that the real code runs.  They sit at
 /// the crate root under their own names, so that `crate::command::…`, `crate::tree::…` and
 /// `crate::CommandDefinition` resolve exactly as they do inside the macro crate.
+///
+/// Feature `macro_src` (on by default).  These files are internals of a proc-macro crate: when a change
+/// to them no longer fits this glue (a renamed field, a new sibling module), `build.sh` falls back to a
+/// build without the feature, in which only the `MACRO` op is unavailable — so that the other ops, and
+/// with them the checks that do not look into the macro crate, keep working.
+#[cfg(feature = "macro_src")]
 #[allow(dead_code)]
 #[path = "/repo/microscpi-macros/src/command.rs"]
 pub mod command;
+#[cfg(feature = "macro_src")]
 #[allow(dead_code)]
 #[path = "/repo/microscpi-macros/src/tree.rs"]
 pub mod tree;
 
 /// Old name of the two modules, kept for the ops.
+#[cfg(feature = "macro_src")]
 #[allow(dead_code)]
 mod macro_src {
     pub use crate::command;
@@ -34,6 +42,7 @@ mod macro_src {
 /// `tree.rs` of the macro crate does `use crate::CommandDefinition;` and needs
 /// `cmd.command.paths()` / `cmd.command.is_query()`; `id` is what the tree
 /// dump prints.
+#[cfg(feature = "macro_src")]
 pub struct CommandDefinition {
     pub id: usize,
     pub command: macro_src::command::Command,
@@ -239,7 +248,14 @@ fn handle(line: &str) -> String {
             if t.len() != 2 {
                 return bad("args");
             }
-            ops::op_macro(t[1])
+            #[cfg(feature = "macro_src")]
+            {
+                ops::op_macro(t[1])
+            }
+            #[cfg(not(feature = "macro_src"))]
+            {
+                String::from("unavailable: command.rs/tree.rs of the macro crate no longer build inside the harness (harness/target/macro_src.log)")
+            }
         }
         "ERRTAB" => {
             if t.len() != 1 {
